@@ -759,6 +759,10 @@ def run_c18(tier, seed, keep=False):
             if rc:
                 break
             drift_check(w, "C18", "DijkstraTrace.tla", ["PopsLegal", "ResultIsSpecState"], {"N": str(n), "WSet": "{0}"}, out, ev, label)
+        if not rc and not q:
+            # the certificate used for the long graphs is equivalent to the declarative statement (all chain graphs on 3 vertices x all candidates)
+            exhaustive(w, "C18", "SparseLemma.tla", "SL.cfg", "LSpec", ["Equivalent", "AllWellFormed", "SomeAccepted"],
+                       {"N": "3", "WSet": "{1}", "OtherW": "{1}", "TraceFile": '""'}, ev, "sparse-certificate-lemma", timeout=900)
         if not rc:
             # long graphs (> 1000 vertices, shortest paths of > 1000 edges): judged by the certificate of DijkstraSparse.tla
             out = "d_sparse.ndjson"
